@@ -16,7 +16,12 @@ fn main() {
     let stdout = std::io::stdout();
     let mut out = std::io::BufWriter::new(stdout.lock());
     // silence panic messages: panics are reported as values
-    std::panic::set_hook(Box::new(|_| {}));
+    // silence panic messages (panics are reported as values) but remember where the last one happened
+    std::panic::set_hook(Box::new(|info| {
+        if let Some(l) = info.location() {
+            *util::LAST_PANIC_AT.lock().unwrap() = format!("{}:{}", l.file(), l.line());
+        }
+    }));
     for line in stdin.lock().lines() {
         let line = line.unwrap();
         if line.trim().is_empty() {
